@@ -462,6 +462,7 @@ fn run(run: &mut Run) {
     run.enumerate("token-faults", *fault_table().last().unwrap(), &token_fault_case);
     run.enumerate("floods", flood_total(), &flood_case);
     run.enumerate("header-statements", header_total(), &header_case);
+    run.enumerate("rare-statements", rare_total(), &rare_case);
     run.explore("odd-characters", run.tier.pick(150_000, 1_500_000), 16, &insertion_case);
     run.explore("token-soup", run.tier.pick(150_000, 1_500_000), 400, &soup_case);
     run.enumerate("alloc-scaling", run.tier.pick(4, 6), &scaling_case);
@@ -490,12 +491,63 @@ fn header_case(src: &mut Src, ctx: &mut Ctx) -> Result<(), String> {
     ctx.sample("header against name", || txt.clone());
     check_text(&txt, ctx).map_err(|e| format!("text {:?}: {}", txt, e))
 }
+// ---- rarely used statements, whole and damaged ----------------------------------------------------------------
+const RARE: &[&str] = &[
+    "MACRO m DENSITY LAYER met1 ; RECT 0 0 40 50 46.6 ; RECT 1 1 2 2 3 ; LAYER met2 ; RECT 0 0 1 1 2 ; END END m",
+    "MACRO m DENSITY RECT 0 0 40 50 46.6 ; LAYER met1 ; END END m",
+    "MACRO m DENSITY END END m",
+    "PROPERTYDEFINITIONS LAYER a REAL ; LIBRARY b INTEGER 5 ; MACRO c STRING \"s\" ; NONDEFAULTRULE widthFactor REAL RANGE 1 10 5 ; PIN e INTEGER RANGE 10 1 ; VIA f REAL 1.5 ; VIARULE g STRING ; END PROPERTYDEFINITIONS",
+    "PROPERTYDEFINITIONS NONDEFAULTRULE w REAL ; END PROPERTYDEFINITIONS",
+    "MACRO m PIN p DIRECTION OUTPUT TRISTATE ; USE ANALOG ; SHAPE FEEDTHRU ; ANTENNAMODEL OXIDE2 ; ANTENNAGATEAREA 1 LAYER met1 ; ANTENNADIFFAREA 2 ; MUSTJOIN q ; NETEXPR \"a b\" ; PORT CLASS BUMP ; LAYER met1 EXCEPTPGNET SPACING 0.1 ; WIDTH 0.2 ; PATH MASK 2 0 0 1 0 ; VIA MASK 123 1 1 v ; END END p END m",
+    "VIA v DEFAULT VIARULE r ; CUTSIZE 1 1 ; LAYERS a b c ; CUTSPACING 1 1 ; ENCLOSURE 1 1 1 1 ; ROWCOL 2 3 ; ORIGIN 0 0 ; OFFSET 0 0 0 0 ; PATTERN 2_F0 ; END v",
+    "VIA w RESISTANCE 2 ; LAYER a ; RECT MASK 1 0 0 1 1 ; POLYGON 0 0 1 0 1 1 ; END w",
+    "SITE s CLASS PAD ; SYMMETRY X Y R90 ; ROWPATTERN a N b FS ; SIZE 1 BY 2 ; END s",
+    "MACRO m CLASS ENDCAP TOPLEFT ; FOREIGN f 1 2 FN ; EEQ n ; SOURCE USER ; SITE s 0 0 N DO 2 BY 3 STEP 1 1 ; FIXEDMASK ; SYMMETRY R90 ; OBS LAYER a DESIGNRULEWIDTH 0.3 ; RECT ITERATE 0 0 1 1 DO 2 BY 2 STEP 3 3 ; END END m",
+    "UNITS TIME NANOSECONDS 1 ; CAPACITANCE PICOFARADS 1 ; RESISTANCE OHMS 1 ; POWER MILLIWATTS 1 ; CURRENT MILLIAMPS 1 ; VOLTAGE VOLTS 1 ; DATABASE MICRONS 2000 ; FREQUENCY MEGAHERTZ 1 ; END UNITS",
+    "NAMESCASESENSITIVE OFF ; NOWIREEXTENSIONATPIN ON ; MANUFACTURINGGRID 0.005 ; USEMINSPACING OBS OFF ; CLEARANCEMEASURE EUCLIDEAN ; BUSBITCHARS \"<>\" ; DIVIDERCHAR \":\" ; BEGINEXT \"x\" a ; b ENDEXT",
+];
+fn rare_total() -> u64 {
+    // whole, one token dropped (every position), one token doubled (every position)
+    RARE.iter().map(|t| 1 + 2 * t.split(' ').count() as u64).sum::<u64>() * 2
+}
+fn rare_case(src: &mut Src, ctx: &mut Ctx) -> Result<(), String> {
+    let mut i = src.u64() % rare_total();
+    let versioned = i % 2 == 1;
+    i /= 2;
+    let mut txt = String::new();
+    for t in RARE {
+        let toks: Vec<&str> = t.split(' ').collect();
+        let n = 1 + 2 * toks.len() as u64;
+        if i < n {
+            let v: Vec<&str> = if i == 0 {
+                toks
+            } else if i <= toks.len() as u64 {
+                let k = (i - 1) as usize;
+                toks.iter().enumerate().filter(|(j, _)| *j != k).map(|(_, t)| *t).collect()
+            } else {
+                let k = (i - 1 - toks.len() as u64) as usize;
+                let mut v = toks.clone();
+                v.insert(k, toks[k]);
+                v
+            };
+            txt = v.join(" ");
+            break;
+        }
+        i -= n;
+    }
+    let txt = if versioned { format!("VERSION 5.8 ; {} END LIBRARY", txt) } else { format!("{}\n", txt) };
+    ctx.label("rarely used statement, whole or with one token dropped or doubled");
+    ctx.nontrivial(hash_of(&txt));
+    ctx.sample("rare statement", || txt.clone());
+    check_text(&txt, ctx).map_err(|e| format!("text {:?}: {}", txt, e))
+}
 fn case(sub: &str) -> Option<Box<CaseFn<'static>>> {
     match sub {
         "prefixes" => Some(Box::new(prefix_case)),
         "token-faults" => Some(Box::new(token_fault_case)),
         "floods" => Some(Box::new(flood_case)),
         "header-statements" => Some(Box::new(header_case)),
+        "rare-statements" => Some(Box::new(rare_case)),
         "odd-characters" => Some(Box::new(insertion_case)),
         "token-soup" => Some(Box::new(soup_case)),
         "alloc-scaling" => Some(Box::new(scaling_case)),
